@@ -3,6 +3,7 @@
 // The wrappers serve tapes set by the plan and log what they hand out.
 #include "drv.h"
 #include <errno.h>
+#include <string.h>
 #include <sys/types.h>
 #include <valgrind/memcheck.h>
 extern bool g_taint_tape; bool g_taint_src = false;
@@ -18,8 +19,10 @@ static thread_local long long g_src_calls = 0, g_mask_calls = 0;
 static thread_local std::vector<uint64_t> g_used;
 static thread_local std::string g_src_log;
 static thread_local bool g_src_active = false;
+static thread_local bool g_src_fail = false;     // tape modes "F<mode>": the system source reports failure (and delivers zeros) while the masks follow <mode>
 
-void tape_set_mask(const std::string &mode, const bytes_t &data) {
+void tape_set_mask(const std::string &mode0, const bytes_t &data) {
+    std::string mode = mode0; g_src_fail = !mode.empty() && mode[0] == 'F'; if (g_src_fail) mode = mode.substr(1);
     g_mask_mode = mode; g_mask_data = data; g_mask_pos = 0;
     uint64_t seed = 0; for (size_t i = 0; i < data.size() && i < 8; ++i) seed = (seed << 8) | data[i];
     g_lcg = seed ? seed : 0x9E3779B97F4A7C15ULL;
@@ -28,7 +31,7 @@ void tape_set_src(const std::vector<std::pair<int, bytes_t> > &e) { g_src = e; g
 long long tape_src_calls() { return g_src_calls; }
 long long tape_mask_calls() { long long r = g_mask_calls; g_mask_calls = 0; return r; }
 void tape_reset_counters() { g_src_calls = 0; g_mask_calls = 0; g_used.clear(); g_src_log.clear(); }
-void tape_reset_all() { tape_reset_counters(); g_src.clear(); g_src_pos = 0; g_src_active = false; }
+void tape_reset_all() { tape_reset_counters(); g_src_fail = false; g_src.clear(); g_src_pos = 0; g_src_active = false; }
 std::string src_log_json() { std::string r = "[" + g_src_log + "]"; g_src_log.clear(); return r; }
 #ifdef DRV_SYSRNG
 static thread_local std::string g_sys_log_fwd;
@@ -105,6 +108,7 @@ int __wrap_ascon_trng_generate(unsigned char *out, size_t outlen) {
 #endif
 int __wrap_ascon_trng_generate(unsigned char *out, size_t outlen) {
     ++g_src_calls;
+    if (g_src_fail) { memset(out, 0, outlen); return 0; }
     if (!g_src_active) {            // no tape installed: deterministic filler, reported healthy
         for (size_t i = 0; i < outlen; ++i) out[i] = (unsigned char)(0x11 * (i + 1) + g_src_calls);
         if (g_taint_src) (void)VALGRIND_MAKE_MEM_UNDEFINED(out, outlen);
